@@ -39,6 +39,18 @@ def datasets(rng, n_random):
     out.append(('distinct-near-one', np.column_stack([1.0 - np.array([0.0, 1e-12, 3e-10, 5e-8, 9e-8, 0.2, 0.5, 0.9]),
                                                      1.0 - np.array([2e-10, 0.0, 7e-8, 1e-12, 0.3, 4e-8, 0.8, 0.6])])))
     out.append(('denormal-scale', np.column_stack([np.arange(1, 9) * 5e-324, np.array([3, 1, 2, 5, 4, 7, 8, 6]) * 1e-310])))
+    # a long table (20 000 rows) with ONE value outside [0, 1], at an odd row index, and its clean twin: the refusal may not depend on n
+    rl = np.random.RandomState(77)
+    zl = rl.multivariate_normal([0, 0], [[1, .6], [.6, 1]], 20000)
+    from scipy.stats import norm as _n2
+    XL = _n2.cdf(zl)
+    out.append(('long-clean-n20000', XL))
+    XB = XL.copy()
+    XB[12345, 1] = 1.5
+    out.append(('long-above-one-n20000', XB))
+    XC = XL.copy()
+    XC[1, 0] = -0.25
+    out.append(('long-below-zero-n20000', XC))
     # nearly (anti-)monotone tables: |tau| in (0.97, 0.995), Frank theta in the hundreds but well inside the solver's box
     for n in (16, 26):
         u = (np.arange(n) + 0.5) / n
@@ -141,19 +153,26 @@ def debye_tau(theta):
     return 1.0 - 4.0 / theta * (1.0 - d1)
 
 
-def calibration_why(fam, X):
+def calibration_why(fam, X, instance=None):
     """the property's statement on the real class, with an INDEPENDENT calibration (replay entry point): after fit(X) tau is
     Kendall's tau-b and theta the family's calibration of it.  Returns None or a description.  Regions of the known findings
     (Frank |theta| at the solver bound, F14c/d; -0.0034 < tau < 0, F33; Clayton tau in {0, 1}, F14a/b) are left to their own oracles."""
     from copulas.bivariate import Bivariate
     from scipy import stats
     X = np.asarray(X, dtype=float)
-    c = Bivariate(copula_type=fam)
+    c = Bivariate(copula_type=fam) if instance is None else instance
+    outside = bool(len(X)) and bool(np.nanmin(X) < 0.0 or np.nanmax(X) > 1.0)
     try:
         with np.errstate(all='ignore'):
             c.fit(X.copy())
-    except Exception:
+    except ValueError:
         return None
+    except Exception as ex:
+        return f'fit raised {type(ex).__name__} ({str(ex)[:60]}) instead of ValueError' if outside else None
+    if outside:
+        k = int(np.argmax((X < 0) | (X > 1)))
+        return (f'fit accepted a table of {len(X)} rows although the value {X.ravel()[k]!r} (row {k // 2}) lies outside [0, 1]: '
+                f'tau = {c.tau!r}, theta = {c.theta!r}')
     tau = float(stats.kendalltau(X[:, 0], X[:, 1])[0])
     if not (c.tau == tau or abs(c.tau - tau) <= 1e-12):
         return f'tau = {c.tau!r} but Kendall tau-b of the data is {tau!r}'
@@ -223,23 +242,30 @@ def consistency_replay(seed, n_random, fam, name):
 
 def calibration_replay(seed, n_random, fam, name):
     """replay entry point: regenerate the run's tables and fit them in the run's order up to (name, fam); returns that table's verdict"""
+    from copulas.bivariate import Bivariate
     ds = datasets(np.random.default_rng(seed + 10), n_random)
+    keep = {f: Bivariate(copula_type=f) for f in FAMS}
     for nm, X in ds:
         for f in FAMS:
             why = calibration_why(f, X)
+            why_p = calibration_why(f, X, keep[f])          # the same table on ONE long-lived instance per family
             if (nm, f) == (name, fam):
-                return why
+                return why or (why_p and 'on an instance fitted on the earlier tables: ' + why_p)
     return 'table not found'
 
 
 def calibration_search(ctx, ds, n_random=0):
     """always runs (also after a broken translation): independent calibration oracle on every table, fitted in sequence in
     this process (so a process-wide cache keyed on a rounded tau is exposed by the close-tau pair)"""
+    from copulas.bivariate import Bivariate
     worst = 0.0
+    keep = {f: Bivariate(copula_type=f) for f in FAMS}
     for name, X in ds:
         for fam in FAMS:
             try:
                 why = calibration_why(fam, X)
+                why_p = calibration_why(fam, X, keep[fam])      # one long-lived instance per family, fitted on every table in turn
+                why = why or (why_p and 'on an instance fitted on the earlier tables: ' + why_p)
             except Exception as ex:
                 why = f'oracle raised {type(ex).__name__}: {str(ex)[:100]}'
             ctx.obligation(f'oracle:calibration:{fam}:{name}', why is None, 'correspondence', why or '')
@@ -298,6 +324,8 @@ def run(ctx):
     exprs, meta = [], []
     frank_goals = []
     for name, X in ds:
+        if len(X) > 2000:
+            continue          # the long tables are for the witness search only (exact rational lists of that length are not fed to Coq)
         for fam in FAMS:
             c, tau, res = run_impl(fam, X)
             # history: the same table fitted on an instance that was fitted on all the previous tables
